@@ -1,3 +1,4 @@
+import base64
 import binascii
 import os
 import pickle
@@ -87,6 +88,33 @@ deprecated(
 
 
 JSONSerializer = JSONSerializer  # api
+
+
+class _CanonicalBase64Serializer:
+    """Accept only the exact text the wrapped signed serializer writes.
+
+    ``base64.urlsafe_b64decode`` silently discards characters outside the
+    alphabet, surplus padding, anything after the padding and the unused bits
+    of the final character, so many different cookie values decode to the
+    same signed bytes.  A cookie value that was altered in any way must not
+    be accepted: re-encode what was decoded and compare.
+    """
+
+    def __init__(self, serializer):
+        self.serializer = serializer
+
+    def dumps(self, appstruct):
+        return self.serializer.dumps(appstruct)
+
+    def loads(self, bstruct):
+        try:
+            padding = b'=' * (-len(bstruct) % 4)
+            raw = base64.urlsafe_b64decode(bstruct + padding)
+        except (binascii.Error, TypeError) as e:
+            raise ValueError('Badly formed base64 data: %s' % e)
+        if base64.urlsafe_b64encode(raw).rstrip(b'=') != bstruct:
+            raise ValueError('Cookie value is not canonically encoded')
+        return self.serializer.loads(bstruct)
 
 
 def BaseCookieSessionFactory(
@@ -475,8 +503,8 @@ def SignedCookieSessionFactory(
     if serializer is None:
         serializer = JSONSerializer()
 
-    signed_serializer = SignedSerializer(
-        secret, salt, hashalg, serializer=serializer
+    signed_serializer = _CanonicalBase64Serializer(
+        SignedSerializer(secret, salt, hashalg, serializer=serializer)
     )
 
     return BaseCookieSessionFactory(
